@@ -228,16 +228,16 @@ def write_tape(path, tape):
         for w, v in tape: f.write('%d %d\n' % (w, v))
 
 
-def build_native(work, q, defs, entry, sanitize=True):
+def build_native(work, q, defs, entry, sanitize=True, harness=None):
     """direct C++ twin of the harness against the real headers"""
-    key = 'nat_' + modkey(q, defs) + '_' + entry + ('_san' if sanitize else '')
+    key = 'nat_' + modkey(q, defs) + '_' + entry + ('_san' if sanitize else '') + ('_' + os.path.splitext(harness)[0] if harness else '')
     with _lock:
         ent = work.cache.get(key)
         if ent is None: ent = work.cache[key] = {'lock': threading.Lock()}
     with ent['lock']:
         if 'exe' in ent: return ent['exe'], ent.get('err')
         exe = os.path.join(work.dir, key)
-        src = os.path.join(ROOT, 'harness', q.harness)
+        src = os.path.join(ROOT, 'harness', harness or q.harness)
         san = ['-fsanitize=address,undefined', '-fno-sanitize-recover=undefined', '-fno-omit-frame-pointer'] if sanitize else []
         cmd = [CLANG] + BASE_FLAGS + ['-O1'] + list(q.cflags) + san + defs_flags(defs) + ['-DVF_ENTRY=' + entry, src,
               os.path.join(Q2C, 'vf_native.cpp'), '-o', exe]
@@ -267,13 +267,17 @@ def replay(work, q, defs, entry, tape, kind):
     """replay a counterexample tape on the native twin; returns (confirmed, how, excerpt)"""
     tp = os.path.join(work.dir, 'tape_%s_%s.txt' % (q.name.replace('/', '_'), kind))
     write_tape(tp, tape)
-    exe, err = build_native(work, q, defs, entry)
+    if isinstance(q.replay, (tuple, list)):
+        # modular (stubbed) harness: lift the unit-level counterexample to the public API (real code, no stubs)
+        exe, err = build_native(work, q, {k: v for k, v in defs.items() if not k.startswith('KF_')}, q.replay[1], harness=q.replay[0])
+    else:
+        exe, err = build_native(work, q, defs, entry)
     if err: return False, 'native build failed', err[-500:], tp
     rc, out, to = run_native(exe, tp, leaks=q.leak)
     if to: return True, 'timeout(nontermination)', out[-400:], tp
     if rc == 3 or 'VF_ASSERT_FAIL' in out: return True, 'assertion', out[-400:], tp
-    if rc in (99,) or 'AddressSanitizer' in out or 'LeakSanitizer' in out: return True, 'asan', out[-900:], tp
-    if rc in (98,) or 'runtime error' in out: return True, 'ubsan', out[-600:], tp
+    if rc in (99,) or 'AddressSanitizer' in out or 'LeakSanitizer' in out: return True, 'asan', out[:1500], tp
+    if rc in (98,) or 'runtime error' in out: return True, 'ubsan', out[:1000], tp
     if rc < 0: return True, 'signal %d' % (-rc), out[-400:], tp
     if rc == 77: return False, 'assumption false on replay', out[-300:], tp
     return False, 'no failure on replay (rc=%d)' % rc, out[-300:], tp
@@ -430,8 +434,10 @@ def run_query(work, q, kf_open, seed=0, do_selfcheck=True):
                 confirmed = (x, how, excerpt, tp); break
         if confirmed:
             x = confirmed[0]
-            r['cex'] = {'prop': x['prop'], 'desc': x['desc'], 'kind': x['kind'], 'how': confirmed[1]}
-            return done('CEX', '%s: %s [%s]' % (x['prop'], x['desc'], confirmed[1]))
+            ex = confirmed[2] or ''
+            key = [l.strip() for l in ex.split('\n') if 'ERROR: AddressSanitizer' in l or 'runtime error' in l or 'VF_ASSERT_FAIL' in l or 'LeakSanitizer' in l]
+            r['cex'] = {'prop': x['prop'], 'desc': x['desc'], 'kind': x['kind'], 'how': confirmed[1], 'native': key[:2]}
+            return done('CEX', '%s: %s [native replay: %s%s]' % (x['prop'], x['desc'], confirmed[1], (': ' + key[0][:160]) if key else ''))
         if unw and not hard and attempt < 3:
             # bound too small for this code: retry with doubled bounds (never reported as success or violation)
             # only the loops whose unwinding assertion failed are raised (doubled)
